@@ -134,6 +134,8 @@ def run_spec(spec, bdir, rundir, tag):
             last = int(lines[-1]) if lines else None
         except OSError:
             pass
+        if rc == 1 and re.search(r'Timeout \(\d+:\d\d:\d\d\)!', outtxt or ''):
+            rc = 'case-hang'
         r = {'spec': s, 'completed': False, 'rc': rc, 'last_idx': last,
              'tail': outtxt[-3000:], 'san_reports': reports,
              'counters': {'evaluations': (last - start + 1) if last is not None
@@ -143,6 +145,10 @@ def run_spec(spec, bdir, rundir, tag):
         results.append(r)
         if last is None or rc == 'timeout' or rc == 3:
             break
+        if rc == 'case-hang':
+            hangs = sum(1 for x in results if x.get('rc') == 'case-hang')
+            if hangs >= 2:
+                break
         start = last + 1
         attempt += 1
     return results
@@ -272,12 +278,18 @@ def main(argv=None):
             reps = r.get('san_reports') or []
             if r['rc'] == 'timeout':
                 inconclusive.append('watchdog expired in kind=%s' % s['kind'])
+            elif r['rc'] == 'case-hang':
+                inconclusive.append(
+                    'case %s of kind=%s did not finish within the per-case '
+                    'watchdog (replay: --kinds %s, idx %s)' % (
+                        r['last_idx'], s['kind'], s['kind'], r['last_idx']))
             elif r['rc'] == 3:
                 inconclusive.append(r['tail'].strip()[-300:])
             elif reps:
                 head = reps[-1]['head']
                 key = 'sanitizer.' + (
-                    'asan' if 'AddressSanitizer' in head else 'ubsan')
+                    'asan' if 'AddressSanitizer' in head else (
+                        'tsan' if 'ThreadSanitizer' in head else 'ubsan'))
                 m = re.search(r'AddressSanitizer: ([\w-]+)', head)
                 if m:
                     key += '.' + m.group(1)
